@@ -55,6 +55,7 @@ BASE_FP = {
 }
 
 NAMES = ['d0', 'pkg', 'sub', 'é', '日本', 'a b', 'x', 'xy', 'ü𝒳', 'd.e', 'src']
+COQ_TIMEOUT = 2400   # per shard; a shard needs ~10 s on an idle machine, but the box may be heavily shared
 FLAGS = [(True, False), (True, True), (False, False), (False, True)]   # (add_parent_paths, add_init_paths)
 
 
@@ -151,7 +152,15 @@ def to_obj(a):
     return a[1] if a[0] == 'str' else Path(a[1])
 
 
+class NotAStr(Exception):
+    """a path entry of the project is not a str (the property promises str entries)"""
+
+
 def observe_project(p):
+    for name, l in (('sys_path', p.sys_path), ('added_sys_path', p.added_sys_path)):
+        for x in l or ():
+            if not isinstance(x, str):
+                raise NotAStr('%s entry %r is a %s, not a str' % (name, x, type(x).__name__))
     env = p._environment_path
     if env is not None:
         env = ('Path', str(env)) if isinstance(env, Path) else ('str', env)
@@ -453,21 +462,35 @@ COMPOSE_FN = '''
 '''
 
 
-def compose_case_term(c, r):
+# Cases are written as applications of a typed function (not as tuples): type inference is then
+# directed by the argument types and coqc checks a case about twice as fast.
+COMPOSE_DEFS = ADEF + '''Definition jv_compose (cwd : str) (a : ctor_args) (dj : bool) (env : list str) (sc : option str)
+  (inits bo : list str) (obs : list (list str)) (op : observed) : bool :=
+  %s (cwd, a, dj, env, sc, inits, bo, obs, op).
+''' % COMPOSE_FN
+ID_BOOL = '(fun b : bool => b)'
+
+
+def compose_case_term(c, r, head='jv_compose'):
     g = G(c['L']['case'])
-    return g.wrap('(%s, %s, %s, %s, %s, %s, %s, %s, %s)' % (
+    return g.wrap(head + ' %s %s %s %s %s %s %s %s %s' % (
         g.s(c['cwd']), g.args(c['args']), g_bool(c['django']), g.strs(r['env']),
         g_optT(None if c['script'] is None else c['script'][1], g.s, 'str'), g.strs(init_dirs(c['L'])),
         g.strs(r['buildout']), g_list(r['outs'], g.strs, 'list str'), g.observed(tuple(r['obs']))))
 
 
+COMPOSE_SHOW_DEFS = ADEF + '''Definition jv_compose_show (cwd : str) (a : ctor_args) (dj : bool) (env : list str) (sc : option str)
+  (inits bo : list str) (obs : list (list str)) (op : observed) :=
+  let cw := parse_path cwd in
+  let p := set_django dj (mk_project cw a) in
+  let sp := option_map (fun s => absolute cw (parse_path s)) sc in
+  (observe p, map (fun f : bool * bool => get_sys_path p env sp (map parse_path inits) bo (fst f) (snd f))
+                  [(true,false);(true,true);(false,false);(false,true)]).
+'''
+
+
 def compose_show(c, r):
-    t = compose_case_term(c, r)
-    return common.coq_show(IMPORTS, defs=ADEF, exprs=[
-        "let '(cwd, a, dj, env, sc, inits, bo, obs, op) := %s in let cw := parse_path cwd in "
-        "let p := set_django dj (mk_project cw a) in let sp := option_map (fun s => absolute cw (parse_path s)) sc in "
-        "(observe p, map (fun f : bool * bool => get_sys_path p env sp (map parse_path inits) bo (fst f) (snd f)) "
-        "[(true,false);(true,true);(false,false);(false,true)])" % t])
+    return common.coq_show(IMPORTS, defs=COMPOSE_SHOW_DEFS, exprs=[compose_case_term(c, r, 'jv_compose_show')])
 
 
 def compose_oracle(c, r):
@@ -475,15 +498,19 @@ def compose_oracle(c, r):
     L, a = c['L'], c['args']
     proj_str = r['obs'][0]
     base = [arg_str(x) for x in a['sys_path']] if a['sys_path'] is not None else None
-    if base is None:
-        base = list(r['env'])
-        if '' in base:
-            base.remove('')
     added = [arg_str(x) for x in a['added']]
+    strip = (lambda l: l)
+    if base is None:
+        # environment-derived base: jedi drops the (first) '' entry on purpose; the property does not
+        # say what happens to further '' entries, so '' is left out of the clause check altogether
+        strip = (lambda l: [x for x in l if x != ''])
+        base = strip(r['env'])
+        added = strip(added)
     plain = proj_str == L['P']
     relative_path = not r['obs'][1]
     res = []
     for (app, aip), out in zip(FLAGS, r['outs']):
+        out = strip(out)
         pre, anc, want = oracle_compose(proj_str, L['P'], base, added, r['buildout'], c['smart'], c['django'],
                                         r['script_abs'], init_dirs(L), app, aip)
         bad = clause_failures(out, proj_str, pre, base, added,
@@ -496,7 +523,7 @@ def compose_oracle(c, r):
 
 def stream_compose(ctx, root, n):
     cases = [gen_compose_case(ctx.rng, root, i) for i in range(n)]
-    results = common.pmap(_compose_task, cases, chunksize=8)
+    results = common.pmap(_compose_task, cases, chunksize=8, timeout=3600)
     terms, metas = [], []
     dist = dict(where={}, form={}, depth={}, smart=0, django=0, explicit_sys_path=0, fake_env=0, buildout=0,
                 no_script=0, with_ancestors=0, dedupe_effective=0)
@@ -534,7 +561,7 @@ def stream_compose(ctx, root, n):
         terms.append(compose_case_term(c, r))
         metas.append(meta)
     ctx.stat('compose', dist)
-    fails, err = common.coq_failing(IMPORTS, COMPOSE_FN, terms, shard=max(10, len(terms) // 8 + 1), defs=ADEF)
+    fails, err = common.coq_failing(IMPORTS, ID_BOOL, terms, shard=max(10, len(terms) // 6 + 1), defs=COMPOSE_DEFS, timeout=COQ_TIMEOUT)
     if err:
         raise RuntimeError('coq evaluation failed (compose): ' + err)
     fails = set(fails)
@@ -614,9 +641,14 @@ ROUNDTRIP_FN = '''
 '''
 
 
+ROUNDTRIP_DEFS = ADEF + '''Definition jv_roundtrip (cwd : str) (a : ctor_args) (ob : observed) (oa : option observed) : bool :=
+  %s (cwd, a, ob, oa).
+''' % ROUNDTRIP_FN
+
+
 def stream_roundtrip(ctx, root, n):
     cases = [gen_roundtrip_case(ctx.rng, root, i) for i in range(n)]
-    results = common.pmap(_roundtrip_task, cases, chunksize=8)
+    results = common.pmap(_roundtrip_task, cases, chunksize=8, timeout=3600)
     terms, pending = [], []
     dist = dict(form={}, env={}, same=0, differs=0, save_raised=0)
     for c, r in zip(cases, results):
@@ -654,10 +686,10 @@ def stream_roundtrip(ctx, root, n):
             dist['same' if not diff else 'differs'] += 1
         pending.append((len(terms), c, r, meta, bad))
         g = G(c['L']['case'])
-        terms.append(g.wrap('(%s, %s, %s, %s)' % (g.s(c['cwd']), g.args(c['args']), g.observed(before),
-                                                  g_optT(after, g.observed, 'observed'))))
+        terms.append(g.wrap('jv_roundtrip %s %s %s %s' % (g.s(c['cwd']), g.args(c['args']), g.observed(before),
+                                                          g_optT(after, g.observed, 'observed'))))
     ctx.stat('roundtrip', dist)
-    fails, err = common.coq_failing(IMPORTS, ROUNDTRIP_FN, terms, shard=max(10, len(terms) // 8 + 1), defs=ADEF)
+    fails, err = common.coq_failing(IMPORTS, ID_BOOL, terms, shard=max(10, len(terms) // 6 + 1), defs=ROUNDTRIP_DEFS, timeout=COQ_TIMEOUT)
     if err:
         raise RuntimeError('coq evaluation failed (roundtrip): ' + err)
     fails = set(fails)
@@ -766,8 +798,7 @@ def _import_task(c):
 IMPORT_DEFS = '''
 Definition enc_s (s : str) : list N := N.of_nat (length s) :: s.
 Definition enc_l (l : list str) : list N := N.of_nat (length l) :: concat (map enc_s l).
-Definition jv_import (c : str * ctor_args * list str * str * list str * list str * list str) : list N :=
-  let '(cwd, a, env, sc, inits, mods, has) := c in
+Definition jv_import (cwd : str) (a : ctor_args) (env : list str) (sc : str) (inits mods has : list str) : list N :=
   let cw := parse_path cwd in
   let p := mk_project cw a in
   let sp := Some (absolute cw (parse_path sc)) in
@@ -798,7 +829,7 @@ def has_module(d):
 
 def stream_import(ctx, root, n):
     cases = [gen_import_case(ctx.rng, root, i) for i in range(n)]
-    results = common.pmap(_import_task, cases, chunksize=4)
+    results = common.pmap(_import_task, cases, chunksize=4, timeout=3600)
     terms, pending = [], []
     dist = dict(resolved=0, unresolved=0, conflict=0, ancestor_wins=0, project_wins=0, base_wins=0, added_wins=0,
                 init_only_ancestor=0, mods=0)
@@ -816,11 +847,12 @@ def stream_import(ctx, root, n):
         universe = dedupe([r['obs'][0]] + base + added + L['chain'] + [L['base'], L['script_dir']] + r['path_t'] + ([c['mods']] if c['mods'] else []))
         has = [e for e in universe if e and has_module(e)]
         g = G(L['case'])
-        terms.append(g.wrap('(%s, %s, %s, %s, %s, %s, %s)' % (
+        terms.append(g.wrap('jv_import %s %s %s %s %s %s %s' % (
             g.s(c['cwd']), g.args(a), g.strs(r['env']), g.s(L['script']), g.strs(init_dirs(L)),
             g.strs([c['mods']] if c['mods'] else []), g.strs(has))))
         pending.append((c, r, meta, base, added))
-    vals, err = common.coq_eval_N_lists(IMPORTS, 'jv_import', terms, shard=max(10, len(terms) // 8 + 1), defs=ADEF + IMPORT_DEFS)
+    vals, err = common.coq_eval_N_lists(IMPORTS, '(fun l : list N => l)', terms, shard=max(10, len(terms) // 6 + 1),
+                                         defs=ADEF + IMPORT_DEFS, timeout=COQ_TIMEOUT)
     if err:
         raise RuntimeError('coq evaluation failed (import): ' + err)
     shown = 0
